@@ -93,6 +93,10 @@ pub enum FaultKind {
     Negate,
     /// unwind out of the call (caller-side cancellation)
     Unwind,
+    /// unwind out of the first user callback of any kind (scalar arithmetic, RNG
+    /// draw, logger write) at or after the index: a panicking user-supplied RNG
+    /// or logger
+    UnwindAny,
 }
 
 impl FaultKind {
@@ -105,6 +109,7 @@ impl FaultKind {
             FaultKind::Perturb(j) => format!("perturb2^-{}", j),
             FaultKind::Negate => "negate".into(),
             FaultKind::Unwind => "unwind".into(),
+            FaultKind::UnwindAny => "unwind-from-any-callback".into(),
         }
     }
     pub fn apply(&self, r: u64) -> u64 {
@@ -116,7 +121,7 @@ impl FaultKind {
             FaultKind::Zero => 0.0f64.to_bits(),
             FaultKind::Perturb(j) => (v * (1.0 + (2.0f64).powi(-(*j as i32)))).to_bits(),
             FaultKind::Negate => (-v).to_bits(),
-            FaultKind::Unwind => r,
+            FaultKind::Unwind | FaultKind::UnwindAny => r,
         }
     }
 }
@@ -259,6 +264,15 @@ pub fn event(k: u8, a: u64, b: u64, r: u64) -> u64 {
             _ => {}
         }
         let mut out = r;
+        if !c.faults.is_empty() && (k == kind::RNG || k == kind::LOG || kind::is_arith(k)) {
+            if let Some(i) = c.faults.iter().position(|f| f.kind == FaultKind::UnwindAny && idx >= f.at) {
+                let f = c.faults.remove(i);
+                c.fired.push((idx, f.kind, k));
+                c.trace_hash = mix(c.trace_hash, 0xdeaf);
+                drop(c);
+                std::panic::resume_unwind(Box::new(InjectedUnwind));
+            }
+        }
         // fault point
         if !c.faults.is_empty() && kind::is_arith(k) {
             let mut i = 0;
